@@ -12,6 +12,7 @@ import ArrModel.C20
 import ArrModel.IndexExt
 import ArrModel.C14Ext
 import ArrModel.C17Lift
+import ArrModel.C01Diff
 /-!
 # ArrModel.C01 — the small-step store machine over the whole modelled operation set
 
@@ -183,6 +184,11 @@ inductive Op
   | strUnary (a : Nat) | strBinary (a b : Nat) | strStrip (a c : Nat) | strCompare (a b : Nat) (op : List Char)
   | strMultiply (a n : Nat) | strSplitlines (a : Nat) (keep : Option Bool) | strPad (a w : Nat) (fill : Bool)
   | strSplit (a : Nat) (sep : Option Nat) (maxSplit : Option Nat) | strReplace (a old new : Nat) (count : Option Nat)
+  -- `ediff1d` / `diff` (`sum_prod_diff.rs`), `insert` with an axis (`manipulate.rs`), `convolve` (`misc.rs`): `ArrModel/C01Diff.lean`
+  | ediff1d (a : Nat) (toEnd toBegin : Option Nat) | diff (a : Nat) (n : Nat) (axis : Option Int) (prepend append : Option Nat)
+  | insertAxis (a : Nat) (indices : List Nat) (values : Nat) (axis : Nat) | convolve (a b : Nat) (mode : Option (List Char))
+  -- the pair-returning `modf` / `divmod` (`arithmetic.rs:403-407, 420-424`) and `frexp` (`floating.rs:126-155`)
+  | modf (a : Nat) | divmod (a : Nat) | frexp (a : Nat)
   -- an unmodelled call: only what it returned is known
   | extern (e : Ext)
 
@@ -242,6 +248,19 @@ def clipOptArr (a : A) (lo hi : Option A) : Res A :=
 /-- `split(sep, max_split)` on the stand-in strings; the limit is `Array::single(m)` -/
 def strSplitArr (a : A) (sep : Option A) (m : Option Nat) : Res A :=
   (C17.splitA C17.Bcast.std (strArr a) (sep.map strArr) (m.map C17.single)).map blankArr
+
+/-- `modf`: `(self.mod(&Self::single(1))?, self.floor()?)` — the zero-divisor guard of `mod` looks at the divisor `[1]` -/
+def modfPair (a : A) : Res (A × A) :=
+  BinPat.G.run a (Arr.single 1) >>= fun fractional => Iter.unary (fun x => x + 1) a >>= fun integral => .ok (fractional, integral)
+
+/-- `divmod`: the same two calls, returned in the other order -/
+def divmodPair (a : A) : Res (A × A) :=
+  BinPat.G.run a (Arr.single 1) >>= fun fractional => Iter.unary (fun x => x + 1) a >>= fun integral => .ok (integral, fractional)
+
+/-- `frexp`: `for_each` pushes one mantissa and one exponent per element; each list is `to_array().reshape(self.shape)` -/
+def frexpPair (a : A) : Res (A × A) :=
+  (Arr.flat (a.elems.map fun x => x)).reshape a.shape >>= fun man =>
+  (Arr.flat (a.elems.map fun _ => (0 : Int))).reshape a.shape >>= fun exp => .ok (man, exp)
 
 /-- the outcome of one operation on the current store -/
 def eval (s : Store) : Op → Val
@@ -359,6 +378,19 @@ def eval (s : Store) : Op → Val
       | none => .skip
   | .strReplace a o n cnt => with3 s a o n fun a o n =>
       ofRes ((C17.replaceA C17.Bcast.std (strArr a) (strArr o) (strArr n) cnt).map blankArr)
+  | .ediff1d a e b => with1 s a fun a =>
+      match getOpt s e, getOpt s b with
+      | some e, some b => .arr (a.ediff1d e b)
+      | _, _ => .skip
+  | .diff a n axis p q => with1 s a fun a =>
+      match getOpt s p, getOpt s q with
+      | some p, some q => ofRes (a.diff 0 n axis p q)
+      | _, _ => .skip
+  | .insertAxis a indices v axis => with2 s a v fun a v => ofRes (a.insertAxis 0 indices v axis)
+  | .convolve a b mode => with2 s a b fun a b => ofRes (a.convolve b mode)
+  | .modf a => with1 s a fun a => ofResP (modfPair a)
+  | .divmod a => with1 s a fun a => ofResP (divmodPair a)
+  | .frexp a => with1 s a fun a => ofResP (frexpPair a)
   | .extern e => e.run
 
 /-- one step of the machine: the outcome is appended, nothing is ever removed or changed -/
